@@ -144,7 +144,7 @@ def r5(R, repo):
   kinds = set()
   for n in ast.walk(up.node):
     if isinstance(n, ast.If):
-      it = astu.isinstance_test(n.test, 'x')
+      it = astu.isinstance_test_pol(n.test, 'x')
       if it:
         kinds |= set(it[1])
   R.judge(len(kinds) >= 1, kinds == {'OptVariable', 'OptArray'}, key_of(up, 'handles the same two kinds'), up, '_update_opt_state must handle exactly OptVariable and OptArray')
